@@ -188,6 +188,7 @@ static inline void __attribute__((always_inline)) myth_queue_push(myth_thread_qu
   myth_wsqueue_wbarrier();//Guarantee W-W dependency
   MYTH_VERIF_POINT(MVP_Q_PUSH_C);
   q->top = t + 1;
+  MYTH_VERIF_POINT(MVP_Q_PUSH_D);
 #if USE_LOCK || USE_LOCK_PUSH
   myth_spin_unlock_body(&q->m_lock);
 #endif
